@@ -6,17 +6,17 @@ patch=$(readlink -f "$1"); demo=$(readlink -f "$2")
 wt=$(mktemp -d /tmp/seedconfirm.XXXXXX)
 rmdir "$wt"
 git -C /repo worktree add -q --detach "$wt" HEAD || { echo "REJECTED cannot create worktree"; exit 2; }
-cleanup() { git -C /repo worktree remove --force "$wt" >/dev/null 2>&1; rm -rf "$wt"; }
+cleanup() { git -C /repo worktree remove --force "$wt" >/dev/null 2>&1; rm -rf "$wt" "$wt.out" "$wt.out2" "$wt.err"; }
 trap cleanup EXIT
 cd "$wt"
-PYTHONPATH="$wt" timeout 900 /venv/bin/python "$demo" >/tmp/seedconfirm.out 2>&1; rc_clean=$?
-if ! git apply "$patch" 2>/tmp/seedconfirm.err; then echo "REJECTED patch does not apply: $(head -2 /tmp/seedconfirm.err)"; exit 1; fi
+PYTHONPATH="$wt" timeout 900 /venv/bin/python "$demo" >$wt.out 2>&1; rc_clean=$?
+if ! git apply "$patch" 2>$wt.err; then echo "REJECTED patch does not apply: $(head -2 $wt.err)"; exit 1; fi
 /venv/bin/python -m compileall -q emd >/dev/null 2>&1 || { echo "REJECTED does not compile"; exit 1; }
 tests=$(timeout 1800 /venv/bin/python -m pytest -q -p no:cacheprovider --timeout=900 emd/tests 2>&1 | tail -1)
-PYTHONPATH="$wt" timeout 900 /venv/bin/python "$demo" >/tmp/seedconfirm.out2 2>&1; rc_patched=$?
+PYTHONPATH="$wt" timeout 900 /venv/bin/python "$demo" >$wt.out2 2>&1; rc_patched=$?
 npass=$(echo "$tests" | grep -o '[0-9]* passed' | grep -o '[0-9]*')
 nfail=$(echo "$tests" | grep -o '[0-9]* failed' | grep -o '[0-9]*')
-if [ "$rc_clean" != "0" ]; then echo "REJECTED demo fails on the clean tree (rc=$rc_clean): $(tail -1 /tmp/seedconfirm.out)"; exit 1; fi
+if [ "$rc_clean" != "0" ]; then echo "REJECTED demo fails on the clean tree (rc=$rc_clean): $(tail -1 $wt.out)"; exit 1; fi
 if [ -n "$nfail" ] || [ "${npass:-0}" -lt 38 ]; then echo "REJECTED test suite with patch: $tests"; exit 1; fi
 if [ "$rc_patched" = "0" ]; then echo "REJECTED demo passes with the patch"; exit 1; fi
 echo "CONFIRMED tests='$tests' demo_clean=$rc_clean demo_patched=$rc_patched"
